@@ -193,6 +193,7 @@ type Env struct {
 	wake    chan struct{} // poked by seams when the library did something observable
 	simSpan time.Duration
 	inBub   bool
+	TrustWait bool // the scenario never parks goroutines inside library code (see Quiesce)
 	forceDump bool // always inspect goroutine states (scenarios whose faults hold library locks)
 	maxStep int
 	steps   int
